@@ -14,12 +14,19 @@ type counters struct {
 	size   uint64
 }
 
-func (x *counters) Add(addr oid.Address, size uint64) {
+// Add accounts the object stored at addr. If the address is already accounted
+// (the object has been written again), its previous size is replaced, not
+// summed up. Returns true if the address is new.
+func (x *counters) Add(addr oid.Address, size uint64) bool {
 	x.mu.Lock()
 	defer x.mu.Unlock()
 
+	prev, known := x.objMap[addr]
+	x.size -= prev
 	x.size += size
 	x.objMap[addr] = size
+
+	return !known
 }
 
 func (x *counters) Delete(addr oid.Address) {
